@@ -99,11 +99,16 @@ DivFam256 == LET x == XAbs IN
   { Add(Mul(x, Pow2(64)), Pow2(63)), Add(Mul(Mul(FromNat(3), x), Pow2(62)), Sub(Pow2(62), One)), Add(Mul(Mul(FromNat(5), x), Pow2(128)), Pow2(127)),
     Add(Mul(x, Pow2(180)), Sub(Pow2(180), One)), Add(Mul(Mul(FromNat(65537), x), Pow2(100)), Pow2(99)),
     Add(FromNat(7), Mul(x, Add(Mul(x, Pow2(64)), Pow2(63)))), Add(RMod, Add(Mul(x, Pow2(64)), Pow2(63))), Sub(Mul(x, Pow2(64)), One) }
+\* small multiples of the eigenvalue structure: k = j x^2 + e (mod r) decomposes into tiny parts (c0, c1) = (e, -j), for which the interleaved
+\* loop meets an accumulator equal (or opposite) to the next addend -- the doubling / identity branches of the addition inside the fast loop
+EigenFam == LET x2 == Mul(XAbs, XAbs) IN
+  UNION { { Add(Mul(FromNat(j), x2), FromNat(e)), Sub(Mul(FromNat(j), x2), FromNat(e)), Add(RMod, Add(Mul(FromNat(j), x2), FromNat(e))) } : j \in 1..4, e \in 0..2 }
+  \cup { Sub(Add(RMod, RMod), FromNat(2)), Sub(Add(RMod, RMod), FromNat(3)), Sub(RMod, Mul(Two, x2)), Sub(RMod, Add(Mul(Two, x2), One)) }
 Scalars(bits) ==
   { s \in { Zero, One, Two, FromNat(15), FromNat(16), FromNat(17), FromNat(31), FromNat(32), FromNat(33) }
           \cup UNION { Near(k, Js) : k \in { kk \in {32, 64, 128, 192, 255, 256, 384, 511} : kk < bits } }
           \cup { Sub(Pow2(bits), FromNat(j)) : j \in Js \ {0} }
-          \cup RFam \cup XFam \cup { H1, H2 }
+          \cup RFam \cup XFam \cup EigenFam \cup { H1, H2 }
           \cup { ModPow2(Mul(Rnd(900 + i), Rnd(950 + i)), bits) : i \in 1..(IF Tier = "quick" THEN 2 ELSE 8) }
       : Lt(s, Pow2(bits)) }
 
